@@ -130,8 +130,8 @@ Proof.
     assert (X : tab_of w <> None) by congruence. destruct (tab_facts w X) as [Y _]. congruence. }
   assert (Hq : is_cue_start w = false).
   { destruct (is_cue_start w) eqn:E; [|reflexivity]. exfalso. unfold is_cue_start in E.
-    destruct control_codes as (_ & _ & _ & _ & _ & _ & _ & _ & _ & _ & F & L). rewrite L in E.
-    apply memz_In in E. rewrite Forall_forall in F.
+    destruct control_codes as (_ & _ & _ & _ & _ & _ & _ & _ & _ & _ & F & L).
+    apply memz_In in E. apply (proj1 (L w)) in E. rewrite Forall_forall in F.
     assert (Y : is_command w = true).
     { apply F. cbn [In] in *. intuition. }
     congruence. }
@@ -163,8 +163,8 @@ Lemma tw_char : forall st p dflt l ds nodes txt pa ro q tm tc fr off w a b n,
 Proof.
   intros st p dflt l ds nodes txt pa ro q tm tc fr off w a b n Ha Hb Hh.
   destruct (char_word_class w a b Ha Hb) as (Hc & Hp & Hs & He & Ht & Hq & Hbs).
-  unfold translate_word. proj_red. unfold handle_double. proj_red. rewrite Hc, Hp, Hs, He, Ht, Hq, Hbs.
-  proj_red. rewrite !andb_false_r. proj_red. rewrite Ha, Hb. unfold add_to_buf. proj_red.
+  unfold translate_word. proj_red. unfold handle_double. proj_red. rewrite Hc, Hp, Hs, He, Ht, Hq.
+  proj_red. rewrite ?andb_false_r. proj_red. rewrite Ha, Hb. unfold add_to_buf. proj_red.
   rewrite (add_chars_holds p dflt nodes txt (a ++ b) Hh). proj_red. reflexivity.
 Qed.
 
@@ -486,8 +486,35 @@ Proof.
   intros s w n He Hl Hd. unfold translate_word. rewrite He, (handle_double_second s w Hl Hd). reflexivity.
 Qed.
 
-Lemma up_pac : forall tk c p pos, tab_of p = None -> pac_pos p = Some pos -> update_positioning tk c p = tracker_update tk pos.
+(* the first preamble address code of an empty buffer resets the tracker *)
+Lemma tracker_reset_first : forall tk pos, tracker_update (tracker_reset tk) pos = mkTk [pos] None false pos.
+Proof. reflexivity. Qed.
+
+Lemma up_pac_gen : forall tk c p pos, tab_of p = None -> pac_pos p = Some pos ->
+  update_positioning tk c p = tracker_update (match cr_nodes c with [] => tracker_reset tk | _ => tk end) pos.
 Proof. intros tk c p pos Ht Hp. unfold update_positioning. rewrite Ht, Hp. reflexivity. Qed.
+
+Lemma up_pac_empty : forall tk c p pos, tab_of p = None -> pac_pos p = Some pos -> cr_nodes c = [] ->
+  update_positioning tk c p = tracker_update (tracker_reset tk) pos.
+Proof. intros tk c p pos Ht Hp Hc. rewrite (up_pac_gen _ _ _ _ Ht Hp), Hc. reflexivity. Qed.
+
+Lemma up_pac_nonempty : forall tk c p pos, tab_of p = None -> pac_pos p = Some pos -> cr_nodes c <> [] ->
+  update_positioning tk c p = tracker_update tk pos.
+Proof.
+  intros tk c p pos Ht Hp Hc. rewrite (up_pac_gen _ _ _ _ Ht Hp). destruct (cr_nodes c); [congruence|reflexivity].
+Qed.
+
+(* (the name used by the later stages: the buffer hypothesis comes last) *)
+Lemma up_pac : forall tk c p pos, tab_of p = None -> pac_pos p = Some pos -> cr_nodes c <> [] ->
+  update_positioning tk c p = tracker_update tk pos.
+Proof. exact up_pac_nonempty. Qed.
+
+(* a tracker that is already in its reset form is not changed by the reset: any buffer *)
+Lemma up_pac_fresh : forall dflt c p pos, tab_of p = None -> pac_pos p = Some pos ->
+  update_positioning (mkTk [] None false dflt) c p = tracker_update (mkTk [] None false dflt) pos.
+Proof.
+  intros dflt c p pos Ht Hp. rewrite (up_pac_gen _ _ _ _ Ht Hp). destruct (cr_nodes c); reflexivity.
+Qed.
 
 Lemma up_tab : forall tk t k, tab_of t = Some k ->
   update_positioning tk creator0 t = tracker_update tk (fst (tk_default tk), snd (tk_default tk) + k).
@@ -509,7 +536,7 @@ Lemma pac_step : forall dflt l fr n, last_contains l p = false ->
 Proof.
   intros dflt l fr n Hl. destruct (pac_row_facts r Hrow) as (Hp & Hpac & Ht & I). unfold SP.
   rewrite (tw_interp _ _ _ _ _ _ _ _ _ _ _ _ n (LWord p) I (hd_pac _ _ _ _ _ _ _ _ _ _ _ _ _ Hpac Hl)).
-  rewrite (up_pac _ _ _ _ Ht Hp), tracker_first. reflexivity.
+  rewrite (up_pac_empty _ creator0 _ _ Ht Hp eq_refl), tracker_reset_first. reflexivity.
 Qed.
 
 Lemma tab_step : forall fr n, 1 <= rw_tab r <= 3 ->
